@@ -259,7 +259,7 @@ func (s *streamConverter) convertOutputs(isStream bool, values map[string]any) e
 // restoreOutputs restores the values held by the channel of node target (keyed by the node that wrote them).
 func (s *streamConverter) restoreOutputs(isStream bool, values map[string]any, target string) error {
 	if !isStream {
-		return nil
+		return restore(values, nil, isStream) // a nil value is held as nilChunk: the value itself again
 	}
 	targetPair := s.inputPairs[target]
 	pairs := make(map[string]streamConvertPair, len(values))
